@@ -70,7 +70,18 @@ def gen(ctx, n):
             ops += [dict(op='udp', s=0, v=4), dict(op='setopt', s=0, opt='rcvbuf', val=rng.choice([1, 64, 100, 500, 1500, 3000])),
                     dict(op='bind', s=0, addr='', port=5000)]
             k = rng.randrange(3, 9)
-            for j in range(k):
+            if i % 2:
+                # a datagram larger than the space that is left (but arriving while the buffer is not yet full): whole or not at all
+                # (UDP SetSockOpt ignores the receive buffer size - only GetSockOpt knows it - so the real limit is the default
+                # 32 KiB: 23 x 1400 bytes leave 568 bytes of room for the 24th datagram)
+                fill = rng.choice([1400, 1401, 1000, 1111])
+                for j in range(32768 // fill + 2):
+                    ops.append(inject(rng, 4, '10.0.0.9', 7, '10.0.0.1', 5000, fill))
+                ops.append(inject(rng, 4, '10.0.0.9', 7, '10.0.0.1', 5000, 7))
+                for _ in range(32768 // fill + 3):
+                    ops.append(dict(op='read', s=0))
+                k += 3
+            for j in range(k - (3 if i % 2 else 0)):
                 ops.append(inject(rng, 4, '10.0.0.9', 7 + j % 2, '10.0.0.1', 5000, rng.choice([0, 1, 50, 99, 100, 101, 400, 1472])))
             for _ in range(k + 1):
                 ops.append(dict(op='read', s=0))
